@@ -189,6 +189,34 @@ func NewReplica(w *World, idx int, node *NodeKeys, cfg ReplicaConfig, dir string
 
 // Start (re)starts the replica: application server, apps, handshake (InitChain or replay).
 func (r *Replica) Start() error {
+	cancel, err := r.startApp()
+	if err != nil {
+		return err
+	}
+	st, err := r.stateStore.LoadFromDBOrGenesisDoc(r.genDoc)
+	if err != nil {
+		cancel()
+		return fmt.Errorf("load state: %w", err)
+	}
+	hs := cmtcs.NewHandshaker(r.stateStore, st, r.blockStore, r.genDoc)
+	hs.SetLogger(cmtlog.NewNopLogger())
+	if err := hs.Handshake(r.conns); err != nil {
+		cancel()
+		return fmt.Errorf("handshake: %w", err)
+	}
+	if st, err = r.stateStore.Load(); err != nil {
+		cancel()
+		return fmt.Errorf("reload state: %w", err)
+	}
+	r.State = st
+	r.exec = sm.NewBlockExecutor(r.stateStore, cmtlog.NewNopLogger(), r.conns.Consensus(), r.mp, &simEvpool{}, r.blockStore)
+	r.Up = true
+	return nil
+}
+
+// startApp starts the application server with all applications, the ABCI connections and opens
+// the CometBFT stores; it does not run the handshake (a node that joins by state sync does not).
+func (r *Replica) startApp() (context.CancelFunc, error) {
 	ctx, cancel := context.WithCancel(context.Background())
 	r.cancel = cancel
 	pruneCfg := abci.PruneConfig{Strategy: abci.PruneNone, PruneInterval: 1000 * time.Hour}
@@ -197,7 +225,7 @@ func (r *Replica) Start() error {
 	}
 	if !r.Cfg.MemoryOnly {
 		if err := os.MkdirAll(r.Dir, 0o755); err != nil {
-			return err
+			return nil, err
 		}
 	}
 	appCfg := &abci.ApplicationConfig{
@@ -218,7 +246,7 @@ func (r *Replica) Start() error {
 	srv, err := abci.NewApplicationServer(ctx, nil, appCfg)
 	if err != nil {
 		cancel()
-		return fmt.Errorf("NewApplicationServer: %w", err)
+		return nil, fmt.Errorf("NewApplicationServer: %w", err)
 	}
 	r.srv = srv
 	state := srv.State()
@@ -241,50 +269,32 @@ func (r *Replica) Start() error {
 	for _, app := range apps {
 		if err := srv.Register(app); err != nil {
 			cancel()
-			return fmt.Errorf("register %s: %w", app.Name(), err)
+			return nil, fmt.Errorf("register %s: %w", app.Name(), err)
 		}
 		app.Subscribe()
 	}
 	if err := srv.SetEpochtime(beaconClient); err != nil {
 		cancel()
-		return err
+		return nil, err
 	}
 	if err := srv.SetTransactionAuthHandler(staking); err != nil {
 		cancel()
-		return err
+		return nil, err
 	}
 	if err := srv.Start(); err != nil {
 		cancel()
-		return fmt.Errorf("mux start: %w", err)
+		return nil, fmt.Errorf("mux start: %w", err)
 	}
 	r.inter = &interposer{Application: srv.Mux()}
 	r.conns = proxy.NewAppConns(proxy.NewLocalClientCreator(r.inter), proxy.NopMetrics())
 	r.conns.SetLogger(cmtlog.NewNopLogger())
 	if err := r.conns.Start(); err != nil {
 		cancel()
-		return fmt.Errorf("app conns: %w", err)
+		return nil, fmt.Errorf("app conns: %w", err)
 	}
 	r.stateStore = sm.NewStore(r.stateDB, sm.StoreOptions{})
 	r.blockStore = cmtstore.NewBlockStore(r.blockDB)
-	st, err := r.stateStore.LoadFromDBOrGenesisDoc(r.genDoc)
-	if err != nil {
-		cancel()
-		return fmt.Errorf("load state: %w", err)
-	}
-	hs := cmtcs.NewHandshaker(r.stateStore, st, r.blockStore, r.genDoc)
-	hs.SetLogger(cmtlog.NewNopLogger())
-	if err := hs.Handshake(r.conns); err != nil {
-		cancel()
-		return fmt.Errorf("handshake: %w", err)
-	}
-	if st, err = r.stateStore.Load(); err != nil {
-		cancel()
-		return fmt.Errorf("reload state: %w", err)
-	}
-	r.State = st
-	r.exec = sm.NewBlockExecutor(r.stateStore, cmtlog.NewNopLogger(), r.conns.Consensus(), r.mp, &simEvpool{}, r.blockStore)
-	r.Up = true
-	return nil
+	return cancel, nil
 }
 
 // Stop stops the replica gracefully (state on disk / in the kept CometBFT databases survives).
